@@ -351,6 +351,9 @@ func ruleC14(c *Ctx, r *Report) {
 		if ld, ok := l.Coll.(*ssa.UnOp); ok && ld.X == ssa.Value(matcher.Params[0]) {
 			whole = true
 		}
+		if l.Coll == ssa.Value(matcher.Params[0]) {
+			whole = true // the path passed by value
+		}
 		applies := false
 		for b := range l.Loop.Body {
 			for _, in := range b.Instrs {
